@@ -29,8 +29,8 @@ func (l *obsLog) add(s string) { l.mu.Lock(); l.evs = append(l.evs, s); l.mu.Unl
 type dispParams struct {
 	Lines, NFg, NBg, MaxRead, Procs int
 	Panics, StuckBg, DefaultRecover bool
-	LongLines                      bool
-	Seed                           uint64
+	LongLines                       bool
+	Seed                            uint64
 }
 
 func dispatchSession(c *Ctx, p dispParams) {
@@ -46,7 +46,10 @@ func dispatchSession(c *Ctx, p dispParams) {
 	var cntMu sync.Mutex
 	rng := c.R
 	// per-(handler,line) behaviour decided up front so that it is reproducible
-	type beh struct{ sleepUs int; panicKind int }
+	type beh struct {
+		sleepUs   int
+		panicKind int
+	}
 	behave := func(h, k int) beh {
 		x := (uint64(h)*1000003 + uint64(k)*7919 + p.Seed) * 0x9E3779B97F4A7C15
 		b := beh{sleepUs: int(x>>40) % 60}
@@ -122,17 +125,25 @@ func dispatchSession(c *Ctx, p dispParams) {
 				lg.add(fmt.Sprintf("X:%d:%d:%d", k, h, topicOf(cn)+1))
 				switch b.panicKind {
 				case 1:
-					cntMu.Lock(); nPanics++; cntMu.Unlock()
+					cntMu.Lock()
+					nPanics++
+					cntMu.Unlock()
 					panic(fmt.Sprintf("boom-%d-%d", h, k))
 				case 2:
-					cntMu.Lock(); nPanics++; cntMu.Unlock()
+					cntMu.Lock()
+					nPanics++
+					cntMu.Unlock()
 					panic(fmt.Errorf("err-%d-%d", h, k))
 				case 3:
-					cntMu.Lock(); nPanics++; cntMu.Unlock()
+					cntMu.Lock()
+					nPanics++
+					cntMu.Unlock()
 					var np *client.Line
 					_ = np.Cmd
 				case 4:
-					cntMu.Lock(); nPanics++; cntMu.Unlock()
+					cntMu.Lock()
+					nPanics++
+					cntMu.Unlock()
 					panic(struct{ A, B int }{h, k})
 				}
 			})
@@ -171,7 +182,7 @@ func dispatchSession(c *Ctx, p dispParams) {
 	sess.srv.SetMaxRead(p.MaxRead)
 	var sb strings.Builder
 	sb.WriteString(":irc.test 001 renamed :Welcome renamed!ident@host\r\n") // line 0
-	sb.WriteString(":renamed!ident@host JOIN #c\r\n")                         // line 1
+	sb.WriteString(":renamed!ident@host JOIN #c\r\n")                       // line 1
 	for k := 2; k < p.Lines+2; k++ {
 		pad := ""
 		if p.LongLines && k%17 == 0 {
@@ -185,7 +196,11 @@ func dispatchSession(c *Ctx, p dispParams) {
 	// background handlers are detached: give the last ones a moment, bounded, before closing
 	time.Sleep(3 * time.Millisecond)
 	sess.close()
-	waitFor(func() bool { lg.mu.Lock(); defer lg.mu.Unlock(); return len(lg.evs) > 0 && lg.evs[len(lg.evs)-1] == "D" }, time.Second)
+	waitFor(func() bool {
+		lg.mu.Lock()
+		defer lg.mu.Unlock()
+		return len(lg.evs) > 0 && lg.evs[len(lg.evs)-1] == "D"
+	}, time.Second)
 	lg.mu.Lock()
 	evs := append([]string(nil), lg.evs...)
 	lg.mu.Unlock()
@@ -232,14 +247,15 @@ func dispatchSession(c *Ctx, p dispParams) {
 		c.SpecFail("spec", desc, "", fmt.Sprintf("%d handler panics but the configured recovery function was handed %d", np, nr), rp)
 	}
 	if p.DefaultRecover {
+		// every panic value must appear in an Error record (whatever the format of the record)
 		errs := 0
 		for _, t := range capLog.text {
-			if strings.HasPrefix(t, "E ") && strings.Contains(t, "panic:") {
+			if strings.HasPrefix(t, "E ") && (strings.Contains(t, "boom-") || strings.Contains(t, "err-") || strings.Contains(t, "nil pointer") || strings.Contains(t, "{")) {
 				errs++
 			}
 		}
 		if int64(errs) != np {
-			c.SpecFail("spec", desc, "", fmt.Sprintf("%d handler panics but the default recovery logged %d error records", np, errs), rp)
+			c.SpecFail("spec", desc, "", fmt.Sprintf("%d handler panics but the default recovery logged %d error records carrying a panic value", np, errs), rp)
 		}
 	}
 	c.Dist(fmt.Sprintf("panics=%v/stuckbg=%v/maxread=%d", p.Panics, p.StuckBg, p.MaxRead))
@@ -255,5 +271,15 @@ func c03(c *Ctx, prop string) {
 			p.Panics = true
 		}
 		dispatchSession(c, p)
+	}
+	if prop == "C16" {
+		// a handler that panics while the connection is being torn down must not stop the teardown either
+		var scs []LifeScenario
+		var tags []string
+		for _, cause := range []string{"close", "eof", "cancel", "close+eof"} {
+			scs = append(scs, LifeScenario{Cause: cause, Closers: 1, Flood: true, HandlerPanics: true, InBacklog: c.R.N(40), GoMaxProcs: []int{1, 4, 16}[c.R.N(3)]})
+			tags = append(tags, "handler-panics-during-teardown")
+		}
+		runScenarios(c, "C16", scs, tags)
 	}
 }
